@@ -46,7 +46,7 @@ OPS = ["add", "subtract", "+td", "-td", "td+"]
 @st.composite
 def aware_case(draw):
     z = draw(S.zones())
-    u = draw(st.one_of(S.instant_near_transition(z), S.instant_near_transition(z), S.uniform_instant()))
+    u = draw(st.one_of(S.instant_near_transition(z), S.instant_near_transition(z), S.uniform_instant(), S.calendar_edge_instant(z)))
     a = draw(amount)
     if draw(st.integers(0, 4)) == 0 and T.transitions(z):
         # aim the result at a transition of the zone
@@ -180,4 +180,49 @@ class FixedOffset(Sub):
         return off != 0 and tot % US != 0, "fixed"
 
 
-SUBS = [Aware(), Naive(), FixedOffset()]
+class EveryYearFebruary(Sub):
+    name = "every_year_february"
+    kind = "enum"
+    ambient = True
+    n = {"quick": 0, "thorough": 0}
+    shards = {"quick": 4, "thorough": 8}
+    distinct_by_construction = True
+    rule = ("EVERY year 2..9998: fixed-unit shifts that start on, land on or cross the last days of February and the year end (UTC, a -05:00 / +05:30 fixed offset "
+            "whose UTC date differs from the local one, and naive), through add/subtract and +/- timedelta: a wrong leap rule in either helper backend moves the "
+            "result by a day; all cases non-trivial")
+
+    def exhaustive(self, tier):
+        return True
+
+    def cases(self, ctx, shard, nshards):
+        for y in range(2, 9999):
+            if y % nshards == shard:
+                yield {"y": y}
+
+    def check(self, case, ctx):
+        import calendar
+        y = case["y"]
+        feb = calendar.monthrange(y, 2)[1]
+        n = 0
+        for (m, d, hh) in ((2, 28, 12), (2, feb, 12), (2, feb, 21), (2, 28, 3), (3, 1, 2), (12, 31, 22), (1, 1, 1)):
+            wall = D.datetime(y, m, d, hh, 30, 15, 250000)
+            for amt in ({"hours": 1}, {"hours": 24}, {"hours": -24}, {"minutes": -1}, {"seconds": 86400 * 2}, {"hours": 36, "minutes": -30, "microseconds": 1}):
+                tot = total(amt)
+                exp = wall + D.timedelta(microseconds=tot)
+                if not 2 <= exp.year <= 9998:
+                    continue
+                for nm, x in (("UTC", pendulum.datetime(*T.fields(wall))), ("-05:00", pendulum.datetime(*T.fields(wall), tz=pendulum.tz.fixed_timezone(-18000))),
+                              ("+05:30", pendulum.datetime(*T.fields(wall), tz=pendulum.tz.fixed_timezone(19800))), ("naive", pendulum.naive(*T.fields(wall)))):
+                    n += 1
+                    for op, r in (("add", x.add(**amt)), ("subtract(negated)", x.subtract(**{k: -v for k, v in amt.items()})), ("+ timedelta", x + D.timedelta(**amt)),
+                                  ("timedelta +", D.timedelta(**amt) + x), ("- timedelta", x - D.timedelta(**{k: -v for k, v in amt.items()}))):
+                        req(T.fields(r) == T.fields(exp) and r.utcoffset() == x.utcoffset(), f"{nm} {op}: result is not the start shifted by exactly the amount", start=x.isoformat(),
+                            amt=amt, got=r.isoformat(), expected=exp.isoformat())
+                    back = x.add(**amt).subtract(**amt)
+                    req(T.fields(back) == T.fields(wall), f"{nm}: subtract() does not undo add()", start=x.isoformat(), amt=amt, back=back.isoformat())
+        ctx.cache["n"] = ctx.cache.get("n", 0) + n
+        ctx.cache["evidence_extra"] = {"inner_evaluations": ctx.cache["n"], "inner_nontrivial": ctx.cache["n"]}
+        return True, "leap" if feb == 29 else "common"
+
+
+SUBS = [Aware(), Naive(), FixedOffset(), EveryYearFebruary()]
